@@ -593,35 +593,38 @@ int EGLPNUM_TYPENAME_ILLread_lp_state_sense (
 /*  error printing 
  */
 
-static void ILLread_lp_state_print_at (
-	EGLPNUM_TYPENAME_ILLread_lp_state * state)
+/* where in the line the reader stands, for lp_err's message: the token is
+ * quoted in full or, if it is very long, up to what fits */
+static void ILLread_lp_state_at (
+	EGLPNUM_TYPENAME_ILLread_lp_state * state,
+	char *buf,
+	size_t size)
 {
 	char *p;
+	size_t n = 0;
 
 	if (state->eof)
 	{
-		QSlog("end of file");
+		snprintf (buf, size, "end of file");
+	}
+	else if (*state->p == '\n')
+	{
+		snprintf (buf, size, "end of line");
 	}
 	else
 	{
-		if (*state->p == '\n')
+		p = state->p;
+		while (EGLPNUM_TYPENAME_ILL_ISBLANK (p))
 		{
-			QSlog("end of line");
+			p++;
 		}
-		else
+		buf[n++] = '"';
+		for (; !EGLPNUM_TYPENAME_ILL_ISBLANK (p) && !END_LINE (p) && n + 2 < size; p++)
 		{
-			p = state->p;
-			while (EGLPNUM_TYPENAME_ILL_ISBLANK (p))
-			{
-				p++;
-			}
-			QSlog("%c", '"');
-			for (; !EGLPNUM_TYPENAME_ILL_ISBLANK (p) && !END_LINE (p); p++)
-			{
-				QSlog("%c", *p);
-			}
-			QSlog("\"");
+			buf[n++] = *p;
 		}
+		buf[n++] = '"';
+		buf[n] = '\0';
 	}
 }
 
@@ -635,6 +638,7 @@ static void lp_err (
 	int errtype, slen, at;
 	EGLPNUM_TYPENAME_qsformat_error error;
 	char error_desc[256];
+	char at_desc[256];
 
 	ILL_FAILfalse (state != NULL, "state != NULL");
 	ILL_FAILfalse (state->file != NULL, "state->file != NULL");
@@ -662,19 +666,18 @@ static void lp_err (
 	}
 	else
 	{
+		/* one diagnostic is one log message */
 		if (!state->interactive)
 		{
-			QSlog("%s %d: %s\t", state->file_name, state->line_num,
-									state->realline);
-			QSlog("%s at ", (isError) ? "LP Error" : "LP Warning");
-			ILLread_lp_state_print_at (state);
-			QSlog(": ");
+			ILLread_lp_state_at (state, at_desc, sizeof (at_desc));
+			QSlog("%s %d: %s\t%s at %s: %s", state->file_name, state->line_num,
+									state->realline, (isError) ? "LP Error" : "LP Warning",
+									at_desc, error_desc);
 		}
 		else
 		{
-			QSlog("%s : ", (isError) ? "LP Error" : "LP Warning");
+			QSlog("%s : %s", (isError) ? "LP Error" : "LP Warning", error_desc);
 		}
-		QSlog("%s", error_desc);
 	}
 CLEANUP:;
 }
